@@ -42,6 +42,7 @@ Definition fe_of_code (n : Z) : cfg :=
   else if n =? 6 then fe_tokenizer_multi else fe_gen_multi.
 
 Definition model_parse (fe : Z) (w : bytes) : bytes := show_outcome (parse_bytes (fe_of_code fe) w).
+Definition model_parse_chunks (fe : Z) (cs : list bytes) : bytes := show_outcome (parse_chunks (fe_of_code fe) cs).
 
 (* specification-side acceptance: BOM stripped as the property says (a BOM in front of the text) *)
 Definition strip_bom (w : bytes) : bytes :=
